@@ -1,5 +1,6 @@
 import JobShopProofs.Properties.C16
 import JobShopProofs.EdgeType
+import JobShopProofs.GraphEdges
 /-!
 # C16 — all theorems (the edge-type theorem lives in `EdgeType.lean`, which needs the graph invariant of C17)
 -/
